@@ -1,7 +1,8 @@
 (* C05  Client enforces request deadlines, never early.  Statements only. *)
 From Coq Require Import List Bool Arith NArith.
 Import ListNotations.
-From TarpcV Require Import Base Transport Client ClientS ClientMon ClientSpec ClientProofsG2.
+From TarpcV Require Import Base Transport Client ClientS ClientMon ClientMon2 ClientSpec ClientProofsG2
+  ClientProofsG2p.
 
 (* For every transport, configuration and op list (fewer than 2^64 ops), the C05 monitor accepts
    the run: a caller receives `ODeadline` only
@@ -16,6 +17,17 @@ Theorem C05_client_monitor : forall (T : Type) (tp : transport T cmsg resp)
   no_wrap ops ->
   c05_ok maxif ops (client_trace tp fuel_of t0 qcap maxif ops) = true.
 Proof. exact (fun T => @c05_proved T). Qed.
+
+(* Promptness (to timer granularity, 1 ms): once a dispatch poll has returned Pending at clock
+   T, a caller whose request had been written by then and whose deadline (or, beyond the
+   supported span, the clamped timer 365 days after transmission) is <= T never again sees
+   Pending: its call has been completed - with the deadline error unless something else ended
+   it first.  (ClientMon2.c05p_ok; invariant: after a Pending poll no armed timer is due.) *)
+Theorem C05_client_prompt : forall (T : Type) (tp : transport T cmsg resp)
+    (fuel_of : cstate (T := T) -> nat) (t0 : T) (qcap maxif : nat) (ops : list (op (T := T))),
+  no_wrap ops ->
+  c05p_ok maxif ops (client_trace tp fuel_of t0 qcap maxif ops) = true.
+Proof. exact (fun T => @c05p_proved T). Qed.
 
 (* non-vacuity: not expired one millisecond before the deadline, expired at it; a reply that
    arrives in time wins *)
@@ -36,4 +48,13 @@ Example C05_monitor_rejects_early :
   c05_ok 2 (map to_op ops) tr = true /\ c05_ok 2 (map to_op ops) bad = false.
 Proof. vm_compute. split; reflexivity. Qed.
 
+(* the promptness monitor rejects a caller left pending after the dispatch ran past its deadline *)
+Example C05_prompt_rejects_stall :
+  let ops := [SCall 0 10 7 true 1; SPollCall 0; SPollD; SAdv 11; SPollD; SPollCall 0] in
+  let tr := crun (mkcfg 2 2 0 true) ops in
+  let bad := firstn 5 tr ++ [[OCall CPending]] in
+  c05p_ok 2 (map to_op ops) tr = true /\ c05p_ok 2 (map to_op ops) bad = false.
+Proof. vm_compute. split; reflexivity. Qed.
+
 Print Assumptions C05_client_monitor.
+Print Assumptions C05_client_prompt.
